@@ -17,6 +17,7 @@
 import YashModel.Common.Proto
 import YashModel.Trap.Model
 import YashModel.Trap.Spec
+import YashModel.Trap.Builtin
 open YashModel YashModel.Trap YashModel.Proto
 
 def condTable : List (String × Nat) :=
@@ -353,10 +354,188 @@ def multiLine (ws : List String) : String :=
     | _, _, _, _ => "bad-case\t-"
   | _ => "bad-case\t-"
 
+/-! `tb` cases: the `trap` built-in in all its forms, `kill` to the shell itself under every
+    disposition, subshells printing the traps of their parent, `wait` interrupted by trapped signals,
+    the EXIT trap.  `tb [ign SIG…;] stmt; stmt; …` with statements
+      T <a> <operand>…   `trap <action> <operand>…`; a = `-`, `E` (empty string), `c<N>` (`probe N`),
+                         `k<N>` (`probe N; kill -s USR2 $$`)
+      TN <operand>…      `trap <operand>…` (no action operand)
+      P | PP | PC <operand>…   `trap`, `trap -p`, `trap -p <operand>…`
+      K SIG | R n | S n | X n  `kill -s SIG $$`, `probe n`, `st n`, `exit n`
+      sub a , b …        `( a; b; … )`        cs a , b …   `x=$( a; b; … ); echo "$x"`
+      bg a , b …         `{ a; b; …; } & wait $!`
+      W SIG…             `( kill -s SIG $$; …; st 3 ) & wait $!`
+    Observation: the lines written to standard output (probe lines as they are, `trap -- …` lines as
+    `T:<action>:<COND>`), how the shell ended and its exit status. -/
+
+def parseAnySig (s : String) : Option Nat := (signalTable.find? (·.2 == s)).map (·.1)
+
+structure TB where
+  st : State
+  exit : Int := 0
+  out : List String := []
+  /-- the process was terminated / stopped by a signal -/
+  ended : Option String := none
+  /-- the shell is leaving (`exit`, or a failed special built-in) -/
+  quit : Bool := false
+
+def tbCmdOf (text : String) : Nat :=
+  match text.splitOn "; " with
+  | [p] => ((p.dropPrefix? "probe ").bind (·.toString.toNat?)).getD 999
+  | [p, _] => (((p.dropPrefix? "probe ").bind (·.toString.toNat?)).getD 999) + 1000
+  | _ => 999
+
+/-- bodies of the `tb` scripts: `probe N` (c < 1000) or `probe N; kill -s USR2 $$` -/
+def tbBody : Body := fun c _ t =>
+  ({ exit := 0 }, if c / 1000 = 1 then catchSignal t 125 else t)
+
+def tbLine (exit : Int) (c : Nat) : String := s!"{exit}:{encStr (toString (c % 1000))}"
+
+def showTrapLine (l : TrapLine) : String :=
+  let a := match l.action with
+    | .default => "-"
+    | .ignore => "E"
+    | .command c => if c / 1000 = 1 then s!"k{c % 1000}" else s!"c{c}"
+  s!"T:{a}:{condToString l.cond}"
+
+/-- the hook after every command: pending traps run -/
+def tbHook (s : TB) : TB :=
+  if s.ended.isSome then s else
+  let r := drain tbBody (2 * s.st.traps.length + 4) s.st.traps s.exit []
+  { s with st := { s.st with traps := r.traps }, exit := r.exit,
+           out := (r.runs.map fun (_, c) => tbLine s.exit c).reverse ++ s.out }
+
+/-- a signal sent to the shell process -/
+def tbSend (s : TB) (sig : Nat) : TB :=
+  match delivery s.st sig with
+  | .caught => { s with st := deliver s.st sig }
+  | .ignored => s
+  | .effect .terminate => { s with ended := some s!"sig{sig}" }
+  | .effect .suspend => { s with ended := some s!"stop{sig}" }
+  | .effect _ => s
+
+def actionText (a : String) : Option String :=
+  match a.toList with
+  | ['-'] => some "-"
+  | ['E'] => some ""
+  | 'c' :: r => (String.ofList r).toNat?.map fun n => s!"probe {n}"
+  | 'k' :: r => (String.ofList r).toNat?.map fun n => s!"probe {n}; kill -s USR2 $$"
+  | _ => none
+
+/-- `run_exit_trap` at the end of a (sub)shell -/
+def tbExitTrap (s : TB) : TB :=
+  if s.ended.isSome then s else
+  match (getState s.st.traps 0).1 with
+  | some ts =>
+    match ts.action with
+    | .command c => tbHook { s with out := tbLine s.exit c :: s.out }
+    | _ => s
+  | none => s
+
+def tbTrap (s : TB) (k : Nat) (print : Bool) (operands : List String) : TB :=
+  let r := trapMain tbCmdOf s.st k false print operands
+  { s with st := r.st, out := (r.out.map showTrapLine).reverse ++ s.out, exit := r.status,
+           quit := r.abort }
+
+/-- a child process of the shell has ended: the parent waited for it with the internal SIGCHLD
+    disposition installed, and the SIGCHLD is collected at the next poll -/
+def tbChildDone (s : TB) : TB :=
+  let st := enableChld s.st
+  { s with st := deliver st SIGCHLD }
+
+mutual
+/-- simple statements; `inner` = inside a subshell (no `kill`, no nested subshell) -/
+def tbSimple (k : Nat) (s : TB) (ws : List String) : Option TB :=
+  match ws with
+  | "T" :: a :: ops => (actionText a).map fun t => tbTrap s k false (t :: ops)
+  | "TN" :: ops => some (tbTrap s k false ops)
+  | ["P"] => some (tbTrap s k false [])
+  | ["PP"] => some (tbTrap s k true [])
+  | "PC" :: ops => some (tbTrap s k true ops)
+  | ["R", n] => n.toNat?.map fun n => { s with out := s!"{s.exit}:{encStr (toString n)}" :: s.out }
+  | ["S", n] => n.toNat?.map fun n => { s with exit := n }
+  | ["X", n] => n.toNat?.map fun n => { s with exit := n, quit := true }
+  | _ => none
+end
+
+def tbList (k : Nat) (s : TB) (stmts : List (List String)) : Option TB :=
+  stmts.foldlM (fun s ws => if s.quit ∨ s.ended.isSome then some s else (tbSimple k s ws).map tbHook) s
+
+/-- the body of a subshell: the traps are reset for the child, its output is collected -/
+def tbChild (k : Nat) (s : TB) (ii : Bool) (inner : List (List String)) : Option TB :=
+  (tbList k { st := enterSubshell s.st ii false, exit := s.exit } inner).map tbExitTrap
+
+def splitInner (ws : List String) : List (List String) :=
+  ((" ".intercalate ws).splitOn ",").map words
+
+def tbStmt (k : Nat) (s : TB) (ws : List String) : Option TB :=
+  match ws with
+  | ["K", sig] => (parseAnySig sig).map fun n => tbSend { s with exit := 0 } n
+  | "sub" :: inner => do
+    let c ← tbChild k s false (splitInner inner)
+    pure (tbChildDone { s with out := c.out ++ s.out, exit := c.exit })
+  | "cs" :: inner => do
+    let c ← tbChild k s false (splitInner inner)
+    let lines := if c.out.isEmpty then ["-"] else c.out
+    pure (tbChildDone { s with out := lines ++ s.out, exit := 0 })
+  | "bg" :: inner => do
+    let c ← tbChild k s true (splitInner inner)
+    pure (tbChildDone { s with out := c.out ++ s.out, exit := c.exit })
+  | "W" :: sigs => do
+    let sigs ← sigs.mapM parseAnySig
+    -- `wait` installs the internal SIGCHLD disposition first; the child then sends the signals
+    let s0 : TB := { s with st := enableChld s.st, exit := 0 }
+    let (s1, caught) := sigs.foldl (fun (acc : TB × List Nat) sig =>
+      if acc.1.ended.isSome then acc else
+      match delivery acc.1.st sig with
+      | .caught => (tbSend acc.1 sig, acc.2 ++ [sig])
+      | _ => (tbSend acc.1 sig, acc.2)) (s0, [])
+    if s1.ended.isSome then pure s1 else
+    let s2 : TB := { s1 with st := deliver s1.st SIGCHLD }
+    let r := waitTrapLoop tbBody (caught ++ [SIGCHLD]) s2.st.traps s2.exit
+    match r.2 with
+    | some (sig, c, _, _) =>
+      pure { s2 with st := { s2.st with traps := r.1 }, out := tbLine s2.exit c :: s2.out,
+                     exit := 384 + sig }
+    | none => pure { s2 with st := { s2.st with traps := r.1 }, exit := 3 }
+  | _ => tbSimple k s ws
+
+def tbLineRun (line : String) : String :=
+  let parts := ((splitTrim line ";").filter (· ≠ "")).map words
+  let parts := match parts with
+    | ("tb" :: r) :: rest => if r.isEmpty then rest else r :: rest
+    | p => p
+  let (ign, parts) := match parts with
+    | ("ign" :: sigs) :: rest => (sigs.filterMap parseSig, rest)
+    | p => ([], p)
+  let init : Nat → Disp := fun s => if ign.contains s then .ignore else .default
+  let rec go (s : TB) (l : List (List String)) (k : Nat) : Option TB :=
+    match l with
+    | [] => some s
+    | ws :: rest =>
+      if s.quit ∨ s.ended.isSome then some s else
+      match tbStmt k s ws with
+      | none => none
+      | some s' => go (tbHook s') rest (k + 1)
+  match go { st := State.init init } parts 0 with
+  | none => "bad-case\t-"
+  | some s =>
+    let s := tbExitTrap s
+    let verdict := match specCheck init s.st with
+      | some w => s!"FAIL:{w}"
+      | none => "ok"
+    let o := s!"out={",".intercalate s.out.reverse} end={s.ended.getD "exit"} exit={if s.ended.isSome then -1 else s.exit}"
+    s!"{o}\t{verdict}"
+
+def condsLine : String :=
+  ",".intercalate (allConditions.map fun c => s!"{c}:{condToString c}") ++ "\t-"
+
 def runLine (line : String) : String :=
   match words line with
   | "script" :: ws => scriptLine ws
   | "multi" :: ws => multiLine ws
+  | "tb" :: _ => tbLineRun line
+  | ["conds"] => condsLine
   | _ => opsLine line
 
 def main : IO Unit := mainLoop runLine
